@@ -91,7 +91,14 @@ def check(chk, repo):
                     okn = okn and feats == ("iter", dom, li.lid)
                 else:
                     okn = False
-            okn = okn and len(a.loops) == 1 and a.guards == ()
+            # validation of the arguments dominates the loop without being part of it; so does a test that the rows to
+            # append exist at all (without rows the loop appends nothing either way)
+            from ..ir import subterms
+            from ..rules_premise import empty_input_test, validation_guard
+            _raises = [e for e in w.events if e.kind == "raise"]
+            own = [(g, pl) for g, pl in a.guards if not validation_guard(_raises, g, pl)
+                   and not (empty_input_test(g, not pl) and ("param", "X_unlabeled") in subterms(g))]
+            okn = okn and len(a.loops) == 1 and own == []
         rep.ev("SEMI-append-rows", a, okn, detail)
     # 3. seeding + competition
     check_seeding(rep, "", comp, repo)
